@@ -74,6 +74,11 @@ CHECKS={
    text='Explicit-state search with NO abstraction (state key = the whole normalised history): every history of depth <= 4 (thorough 5) over the alphabet (new epic/task in several input forms, plan, set title/body/claim/unclaim/state/epic/result, claim, claim <id>, sequence / rm on task and epic pairs, prune, compact) from a fresh store, and every single op from further roots (rich store, the repository\'s legacy sample project, synthetic legacy untitled items, each also with 3 torn tails). On every reached log s with c = compact(s): everything a reader sees is byte-identical (list --all/--epics/--ready, show of every id incl. timestamps, results, deps/rdeps, flags), the id sequence handed out by repeated claim is equal, pruned ids are gone from c, compact(c) changes nothing (modulo link-event ts), and for every op o of the alphabet o(s) and o(c) exit alike and end in the same observable state (commuting diagram, up to depth-1 below the bound).',
    note='Scripted ids, real timestamps; same-log comparisons byte-exact, cross-run comparisons drop timestamps. Known finding K5 matched by (op, legacy-untitled item).',
    technique='explicit-state BFS over real commands, differential oracle (with vs without compact)'),
+
+ 'C17': dict(engine='SEQ', level='model_checking', design='3/C17',
+   text='Exhaustive string enumeration: all strings of length 1-2 (thorough 1-3) over a 26-symbol alphabet with one symbol per transformation in the pipeline (quote, backslash, slash, LF, CR, TAB, NUL, US, DEL, <, >, &, NEL, NBSP, LS, PS, BOM, combining mark, 2-/3-/4-byte runes, U+FFFD, U+FFFF, brace) plus 20 long texts (64 KiB scanner boundaries +-1, 128 KiB, 300 KB; plain, 3-byte runes, alternating space / newline so that a space sits next to every possible cut) x {title, body} x {new task, new epic, set, plan epic, plan task} x {JSON stdin, flags, --body-stdin}; each accepted text is read back with show --json directly and again after compact and must be identical code point for code point (titles via flag or set: TrimSpace), blank-after-trim inputs must be rejected with nothing written.',
+   note='argv cannot carry NUL or >128 KiB arguments (skipped, counted). Expected value uses Go\'s TrimSpace as the definition of surrounding white space.',
+   technique='exhaustive small-scope input enumeration over real commands'),
 }
 NA_REASON='check not built yet (work in progress; design in DESIGN.md)'
 m={"version":1,
